@@ -3,11 +3,11 @@ SPEC = {
     "level": "proof",
     "lean_modules": ["PallasVerif.Props.C05"],
     "required_theorems": ["elemSpan_is_slice", "txId_is_hash_of_slice", "encode_injective", "id_input_changes_with_encoding",
-                          "byron_prefix", "headerHash_cases", "keepraw_span", "blockHash_is_hash_of_slice", "itemsOfKey_slices"],
+                          "byron_prefix", "headerHash_cases", "keepraw_span", "blockHash_is_hash_of_slice", "itemsOfKey_slices", "proper_prefix_not_item", "decoded_span_is_one_item", "underconsuming_decoder_span_not_item", "headerHashN2N_cases"],
     "streams": [{"name": "idhash", "quick": 400, "thorough": 12000}],
     "rule": "cases: `tx <era> <cbor>` (+ `datums`, `scripts`, `inline`: hashes of witness-set datums, native scripts, inline datums), `block <cbor>`, "
             "`header <wrapper-tag> <cbor>`, `datum <cbor>` / `script <cbor>` (KeepRaw<PlutusData> / KeepRaw<NativeScript> decoded stand-alone, spans sliced out of the corpus transactions). Corpus: every test_data/*.tx, *.block (+ each block's header span and first 2 (thorough 6) transactions), "
-            "*.header; genesis.block (epoch boundary) and a small synthetic epoch-boundary block; every 400th (thorough: 8th) block of the three immutable-db chunks. Systematic mutants: every single-site to-indef / to-def / widen-head / chunk-string mutant (first 8, thorough 64, sites) of every stand-alone datum and native script; pool datums and their single-site mutants spliced as inline datums into corpus transactions. Random mutants (the `quick`/`thorough` count): the same items after 1..3 "
+            "*.header; genesis.block (epoch boundary) and a small synthetic epoch-boundary block; every 400th (thorough: 8th) block of the three immutable-db chunks; `hdr <tag> <subtag> <cbor>` drives MultiEraHeader::decode through every (tag, subtag) that selects the fitting decoder (EBB (0,0); Byron main (0,1)/(0,-)/(0,7)/(0,255); Shelley family 1..4; Babbage family 5,6,7,255); `byrontx` / `body <era>` decode KeepRaw<byron::Tx> / KeepRaw<TransactionBody> stand-alone. Systematic mutants: EVERY single-site to-indef (incl. empty maps / arrays) / to-def / widen-head / head-8-bytes / chunk-string mutant of stand-alone headers of every era incl. the epoch-boundary header (2, thorough 8, headers per wrapper tag, each through its entry points) and of stand-alone Byron txs; evenly spread single sites always including the LAST one for bodies, whole transactions and small blocks; every single-site to-indef / to-def / widen-head / chunk-string mutant (first 8, thorough 64, sites) of every stand-alone datum and native script; pool datums and their single-site mutants spliced as inline datums into corpus transactions. Random mutants (the `quick`/`thorough` count): the same items after 1..3 "
             "structural CBOR mutations at the concrete-syntax level (definite<->indefinite containers, wider-than-minimal heads on ints / lengths / tags, "
             "swapped map entries, byte strings split into chunks, set tag 258 dropped), kept only if pallas still decodes them. distinct = sha1 of op text; "
             "non-trivial = the case produced at least one identifier (decoded tx / block / header)",
@@ -19,7 +19,7 @@ SPEC = {
                     "BLAKE2b collision freedom is NOT assumed: id_input_changes_with_encoding is about hash inputs",
                     "ComputeHash impls (hash of a re-encoding, e.g. DatumOption::compute_hash, PlutusData::compute_hash) are by contract not original-byte "
                     "hashes and are not observed here; only MultiEraTx::hash, MultiEraBlock::hash, MultiEraHeader::hash and OriginalHash::original_hash are"],
-    "explanation": "deviation found and fixed: constr-102 with an indefinite outer array (see known_findings.d/C05.json; corpus/C05/idhash-constr102-indef.ops replays it). self-tests run on a scratch edit of the pallas worktree: MultiEraTx::hash Babbage/Conway arms `original_hash()` -> `compute_hash()` "
+    "explanation": "seeded change C05-a (EmptyMap::decode leaving the break of `bf ff` unread) is caught by `hdr 0 0 ..81bfff` (header-hash-not-over-wire-bytes, header-raw-cbor) and by `byrontx` mutants. deviation found and fixed: constr-102 with an indefinite outer array (see known_findings.d/C05.json; corpus/C05/idhash-constr102-indef.ops replays it). self-tests run on a scratch edit of the pallas worktree: MultiEraTx::hash Babbage/Conway arms `original_hash()` -> `compute_hash()` "
                    "(passes pallas' own tests; here exit 1, VIOLATION, replay idhash-viol-tx-id-not-hash-of-wire-body = a widened-head / re-ordered mutant); "
                    "KeepRaw<PlutusData>::original_hash -> hash_cbor(self.deref()) caught as datums-hash-not-over-wire-bytes; swapping the order of the match arms in "
                    "MultiEraTx::hash (behaviour preserving: quiet, exit 0)",
